@@ -159,6 +159,8 @@ class Model(object):
                 name = fn[:-3]
                 self.modules[name] = Module(name, os.path.join(pkg, fn), '%s/%s' % (PACKAGE, fn))
         self._link_inheritance()
+        from . import redfa
+        redfa.MODULES = self.modules
 
     def _link_inheritance(self):
         """methods / properties / class attributes of in-package base classes are visible on the subclass (a method pulled up
